@@ -1,5 +1,7 @@
 //! Canonical pre-states, the per-handle invariant INV and the drop epilogue.
 
+#[cfg(not(kani))]
+use crate::nk as kani;
 use crate::model::{ModelStr, MCAP};
 use crate::shim;
 use crate::text::{self, TMAX};
